@@ -142,6 +142,7 @@ class Fragment(AbstractApplication):
         # internal action, not delete
         ctr.route = None
         ctr.sender = None
+        ctr.fragmented = True
         return True
 
     def _reassemble(self, ctr):
